@@ -57,6 +57,20 @@ mod verif_kani_int {
         assert!(d as i128 == exd || (exd > i64::MAX as i128 && d == i64::MAX) || (exd < i64::MIN as i128 && d == i64::MIN));
         assert!(n as i128 == -(a as i128) || (a == i64::MIN && n == i64::MAX));
     }
+    /// Q32.32 conversion, ALL finite f32, overflow checks ON: no panic (in particular no "negate with overflow"),
+    /// sign-faithful, saturating exactly at +/-2^31, exact on representable halves
+    #[kani::proof] fn c19_fixed_from_f32_sign_and_saturation() {
+        let x = f32::from_bits(kani::any());
+        kani::assume(x.is_finite());
+        let r = crate::fixed_q32_32::from_f32(x);
+        if x >= 2147483648.0 { assert!(r == i64::MAX); }
+        if x <= -2147483648.0 { assert!(r == i64::MIN); }
+        if x > 0.0 { assert!(r >= 0); }
+        if x < 0.0 { assert!(r <= 0); }
+        if x == 0.0 { assert!(r == 0); }
+        if x == 1.0 { assert!(r == 1i64 << 32); }
+        if x == -0.5 { assert!(r == -(1i64 << 31)); }
+    }
     #[kani::proof] fn c19_dfix_mul_total() { let a: i64 = kani::any(); let b: i64 = kani::any(); let _ = DFix64::mul_raw(a, b); }
     #[kani::proof] fn c19_dfix_div_total() { let a: i64 = kani::any(); let b: i64 = kani::any(); let _ = DFix64::div_raw(a, b); }
 }
